@@ -49,6 +49,50 @@ def inj_sql_stage(base):
     return base.rstrip("\n") + "\nselect {zzd = 1}\nderive {zq = (date.to_text \"%Y\" zzd)}\n", None
 
 
+def _pos(base, tail):
+    return base.rstrip("\n") + "\nselect {zzc = 1, zzd = 2}\n" + tail + "\n", "zzq_unknown"
+
+
+def inj_unknown_in_tuple(base):
+    return _pos(base, "select {zzc, zzq_unknown, zzd}")
+
+
+def inj_unknown_in_case(base):
+    return _pos(base, "derive {zq = case [zzc == 1 => zzq_unknown, true => 0]}")
+
+
+def inj_unknown_in_sstring(base):
+    return _pos(base, "derive {zq = s\"COALESCE({zzc}, {zzq_unknown})\"}")
+
+
+def inj_unknown_in_fstring(base):
+    return _pos(base, "derive {zq = f\"a{zzc}b{zzq_unknown}c\"}")
+
+
+def inj_unknown_in_join_cond(base):
+    return _pos(base, "join zzj = [{zk = 1}] (zzq_unknown == zzj.zk)")
+
+
+def inj_unknown_in_group_body(base):
+    return _pos(base, "group {zzc} (aggregate {zn = sum zzq_unknown})")
+
+
+def inj_unknown_in_named_arg(base):
+    return base.rstrip("\n") + "\nselect {zzc = 1, zzd = 2}\nwindow rolling:zzq_unknown (derive {zs = sum zzd})\n", "zzq_unknown"
+
+
+def inj_unknown_in_func_arg(base):
+    return _pos(base, "derive {zq = (math.round 2 (zzc + zzq_unknown))}")
+
+
+def inj_unknown_in_sort(base):
+    return _pos(base, "sort {zzc, -zzq_unknown}")
+
+
+def inj_type_error_via_param(base):
+    return "let zz_lim = x -> x\n" + base.rstrip("\n") + "\ntake (zz_lim \"x\")\n", None
+
+
 def inj_ml_too_many_args(base):
     # the offending call spans several lines: location.end must be on the last of them
     return base.rstrip("\n") + "\ntake (\n  1\n) 2 3\n", None
@@ -67,6 +111,9 @@ def inj_ml_bad_join_side(base):
 
 
 INJECTIONS = {
+    "unknown_in_tuple": inj_unknown_in_tuple, "unknown_in_case": inj_unknown_in_case, "unknown_in_sstring": inj_unknown_in_sstring, "unknown_in_fstring": inj_unknown_in_fstring,
+    "unknown_in_join_cond": inj_unknown_in_join_cond, "unknown_in_group_body": inj_unknown_in_group_body, "unknown_in_named_arg": inj_unknown_in_named_arg,
+    "unknown_in_func_arg": inj_unknown_in_func_arg, "unknown_in_sort": inj_unknown_in_sort, "type_error_via_param": inj_type_error_via_param,
     "ml_too_many_args": inj_ml_too_many_args, "ml_take_tuple": inj_ml_take_tuple, "ml_unclosed_brace": inj_ml_unclosed_brace, "ml_bad_join_side": inj_ml_bad_join_side,
     "lex_amp": inj_lex_amp, "unclosed_string": inj_unclosed_string, "stray_paren": inj_stray_paren,
     "missing_operand": inj_missing_operand, "unknown_name": inj_unknown_name, "unknown_func": inj_unknown_func,
